@@ -1,4 +1,5 @@
 import VModel.Trainer
+import VProofs.Lemmas.FeatGen
 /-!
 # C10 — Training uses exactly the annotated boundaries with the documented features
 
@@ -10,13 +11,13 @@ namespace V
 theorem C10_examples (cfg : TrainCfg) (s : Sentence) :
     (examplesOf cfg s).map Prod.snd = s.bounds.filter (fun b => b ≠ B.U) ∧
     ∀ e ∈ examplesOf cfg s, ∃ i, i < s.bounds.length ∧ s.bounds[i]? = some e.2 ∧ e.2 ≠ B.U ∧ e.1 = genFeatures cfg s.text i := by
-  sorry
+  exact ⟨C10L.examples_snd cfg s.text s.bounds 0, C10L.examples_mem cfg s⟩
 
 /-- a sentence without annotations contributes no example, so adding it does not change the training problem -/
 theorem C10_unknown_neutral (cfg : TrainCfg) (s : Sentence) (h : ∀ b ∈ s.bounds, b = B.U)
     (corpus₁ corpus₂ : List Sentence) :
     (corpus₁ ++ s :: corpus₂).flatMap (examplesOf cfg) = (corpus₁ ++ corpus₂).flatMap (examplesOf cfg) := by
-  sorry
+  simp only [List.flatMap_append, List.flatMap_cons, C10L.examples_nil cfg s h, List.nil_append]
 
 /-- character n-gram features of boundary `i`: exactly the n-grams `[j, j+ℓ)` with `1 ≤ ℓ ≤ N` that lie inside the window
 `[i+1−W, i+1+W)` clipped to the text, each once, with relative position `j − i − 1` -/
@@ -25,7 +26,10 @@ theorem C10_char_ngram_spec (cfg : TrainCfg) (text : List Char) (i : Nat) (g : L
     (Feature.charNgram g rel ∈ genFeatures cfg text i ↔
       ∃ j l, 1 ≤ l ∧ l ≤ cfg.charN ∧ i + 1 ≤ j + cfg.charW ∧ j + l ≤ min text.length (i + 1 + cfg.charW) ∧
           g = (text.drop j).take l ∧ rel = (j : Int) - (i : Int) - 1) := by
-  sorry
+  have hc := C10L.count_char_genFeatures cfg text i g rel
+  refine ⟨hc ▸ C10L.count_ngramFeats_le_one _ _ _ _ _, ?_⟩
+  rw [C10L.mem_iff_of_count_eq hc]
+  exact C10L.mem_ngramFeats _ _ _ _ _ _
 
 /-- the same for character-type n-grams with their own window and size -/
 theorem C10_type_ngram_spec (cfg : TrainCfg) (text : List Char) (i : Nat) (g : List Nat) (rel : Int) :
@@ -33,7 +37,9 @@ theorem C10_type_ngram_spec (cfg : TrainCfg) (text : List Char) (i : Nat) (g : L
     (Feature.typeNgram g rel ∈ genFeatures cfg text i ↔
       ∃ j l, 1 ≤ l ∧ l ≤ cfg.typeN ∧ i + 1 ≤ j + cfg.typeW ∧ j + l ≤ min text.length (i + 1 + cfg.typeW) ∧
           g = ((typesOf text).drop j).take l ∧ rel = (j : Int) - (i : Int) - 1) := by
-  sorry
+  have hc := C10L.count_type_genFeatures cfg text i g rel
+  refine ⟨hc ▸ C10L.count_ngramFeats_le_one _ _ _ _ _, ?_⟩
+  rw [C10L.mem_iff_of_count_eq hc, C10L.mem_ngramFeats, C10L.length_typesOf]
 
 /-- dictionary features: one per dictionary-word occurrence `[st, en)` touching the boundary — left if the boundary is just
 before the word, inside if it is strictly inside, right if it is just after the word and not the end of the text — by
@@ -46,13 +52,24 @@ theorem C10_dict_spec (cfg : TrainCfg) (text : List Char) (i : Nat) (len : Nat) 
          | .left => decide (se.1 ≠ 0 ∧ i = se.1 - 1)
          | .inside => decide (se.1 ≤ i ∧ i + 1 < se.2)
          | .right => decide (se.2 ≠ text.length ∧ i = se.2 - 1))).length := by
-  sorry
+  rw [C10L.count_dict_genFeatures, C10L.count_dictFeats]
+  rfl
 
 /-- `dictMatches` are exactly the occurrences of dictionary words: `(st, en)` with multiplicity one per word equal to `text[st, en)` -/
 theorem C10_dict_matches (words : List (List Char)) (text : List Char) (st en : Nat) :
     (dictMatches words text).count (st, en) =
       if st < en ∧ en ≤ text.length then words.count ((text.drop st).take (en - st)) else
       if st = en ∧ 1 ≤ en ∧ en ≤ text.length then words.count [] else 0 := by
-  sorry
+  exact C10L.count_dictMatches words text st en
+
+/-- non-vacuity: with window 2 and n-gram size 2 the bigram `ab` is a feature of boundary 0 of `abc`, exactly once,
+and the dictionary word `bc` gives a `left` feature there -/
+example :
+    let cfg : TrainCfg := { charW := 2, charN := 2, typeW := 1, typeN := 1, dictWords := [['b', 'c']], dictMaxLen := 4 }
+    Feature.charNgram ['a', 'b'] (-1) ∈ genFeatures cfg ['a', 'b', 'c'] 0 ∧
+    (genFeatures cfg ['a', 'b', 'c'] 0).count (Feature.charNgram ['a', 'b'] (-1)) = 1 ∧
+    (genFeatures cfg ['a', 'b', 'c'] 0).count (Feature.dictWord 2 .left) = 1 ∧
+    dictMatches cfg.dictWords ['a', 'b', 'c'] = [(1, 3)] := by
+  decide
 
 end V
